@@ -478,8 +478,26 @@ def merge(repo: Repo, chk: Check) -> None:
 
             v = expand(s.node.value, alt.env)
             ms = [m for _, m in norm.find(T("phs.MuxOp(lhs=$l, rhs=$r, switch=$sw)"), v)] + [m for _, m in norm.find(T("MuxOp(lhs=$l, rhs=$r, switch=$sw)"), v)]
-            if not ms:
-                # built in a helper that was walked at the call: follow the definitions of what it returned
+            def _fresh_mux_helper(call_: ast.expr) -> bool:
+                """a module helper every return of which hands out (a result of) a mux it has just constructed"""
+                call_ = norm.primary(call_)
+                if not (isinstance(call_, ast.Call) and isinstance(call_.func, ast.Name) and call_.func.id in f.module.funcs):
+                    return False
+                hn = f.module.funcs[call_.func.id].node
+                rets_ = [r_ for r_ in ast.walk(hn) if isinstance(r_, ast.Return) and r_.value is not None]
+                for r_ in rets_:
+                    base = r_.value
+                    while isinstance(base, (ast.Subscript, ast.Attribute)):
+                        base = base.value
+                    if not isinstance(base, ast.Name):
+                        return False
+                    defs_ = [a_.value for a_ in ast.walk(hn) if isinstance(a_, ast.Assign) and any(isinstance(t_, ast.Name) and t_.id == base.id for t_ in a_.targets)]
+                    if not defs_ or not all(isinstance(d_, ast.Call) and callee_name(d_) == "MuxOp" for d_ in defs_):
+                        return False
+                return bool(rets_)
+
+            if not ms and _fresh_mux_helper(v):
+                # built in a helper that was walked at the call, and a fresh mux on every path of that helper: follow the definitions of what it returned
                 v = fl.cone(s.node.value, s, inline=1)
                 ms = [m for _, m in norm.find(T("phs.MuxOp(lhs=$l, rhs=$r, switch=$sw)"), v)] + [m for _, m in norm.find(T("MuxOp(lhs=$l, rhs=$r, switch=$sw)"), v)]
             if not ms:
